@@ -24,7 +24,7 @@ EXPLANATION = (
     "C08.d: no in-place store below _perform_timestep targets the weather matrix or a numpy view of it (slices and "
     "boolean-mask selections are distinguished by the view/copy table), so every season reads the weather the single-season run reads. "
     "C08.e: the thermal-time calendar of a SwitchGDD crop must not be an aggregate over the seasons of the window (reported: prepare_gdd's "
-    "mean / median over all seasons - known finding F19, the documented behaviour of the conversion). C08.f (sibling agreement): the CO2 adjustment is computed by compute_variables for the first season and by the season reset for later ones; the defining expressions of its seven quantities are the same sets. C08.b also: the snapshot thini is taken from the final initial profile - no store to the water content (rebinding or in place) follows it in the initial-conditions routine (the groundwater adjustments come first). NOT decided: bitwise equality of the two runs.")
+    "mean / median over all seasons - known finding F19, the documented behaviour of the conversion). C08.f (sibling agreement): the CO2 adjustment is computed by compute_variables for the first season and by the season reset for later ones; the defining expressions of its seven quantities are the same sets. C08.b also: the snapshot thini is taken from the final initial profile - no store to the water content (rebinding or in place) follows it in the initial-conditions routine (the groundwater adjustments come first). C08.g: the season reset reads the season's CO2 concentration from the yearly series by label (the year of the clock's step start), never by position - the series starts with the year of the simulation start, the seasons with the first planting date on or after it. NOT decided: bitwise equality of the two runs.")
 
 L = frozenset
 ST = ("state",)
@@ -371,6 +371,8 @@ def run(chk, prog, tier):
     season_aggregate_calendar(chk, prog, "C08.e")
     from ._siblings import co2_factor_agreement
     chk.floor("C08.f", co2_factor_agreement(chk, prog, "C08.f"), 7, "CO2-factor quantities compared")
+    from ._siblings import co2_series_rules
+    co2_series_rules(chk, prog, rule_lookup="C08.g")
     chk.exhaustive = True
 
 
